@@ -15,6 +15,9 @@ use vcommon::evidence::{catch, h64, Violation};
 use vcommon::refscale::PType;
 
 pub const BUILDER_VALUES: usize = 13;
+/// operations of the builder alphabet: register_type(value k) for k < BUILDER_VALUES, then finish() in the middle of a history
+pub const BUILDER_OPS: usize = BUILDER_VALUES + 1;
+pub const OP_FINISH: u8 = BUILDER_VALUES as u8;
 
 fn prim(p: scale_info::TypeDef<PortableForm>, path: &[&str], docs: &[&str], params: Vec<TypeParameter<PortableForm>>) -> PType {
     lit::ty(
@@ -82,6 +85,14 @@ pub fn eval_builder(hist: &[u8]) -> (String, Option<(String, String)>) {
         }
     };
     for (step, &k) in hist.iter().enumerate() {
+        if k == OP_FINISH {
+            // finish() in the middle of a history: it reports the table and changes nothing
+            let fin = b.finish();
+            if fin.types.len() != model.len() || fin.types.iter().zip(&model).enumerate().any(|(i, (t, m))| t.id != i as u32 || t.ty != *m) {
+                note("finish", format!("step {step}: finish() in the middle of the history does not list the {} values stored so far", model.len()));
+            }
+            continue;
+        }
         let v = builder_value(k as usize, &model);
         let announced = b.next_type_id();
         if announced != model.len() as u32 {
@@ -227,7 +238,7 @@ impl TableModel {
     }
     fn describe(&self, h: &[u8]) -> Vec<String> {
         h.iter()
-            .map(|k| if self.builder { format!("register_type({})", VALUE_NAMES[*k as usize]) } else { format!("intern_or_get({})", INTERNER_VALUES[*k as usize]) })
+            .map(|k| if self.builder { if *k == OP_FINISH { "finish()".to_string() } else { format!("register_type({})", VALUE_NAMES[*k as usize]) } } else { format!("intern_or_get({})", INTERNER_VALUES[*k as usize]) })
             .collect()
     }
 }
@@ -276,7 +287,7 @@ pub struct TableStats {
 }
 
 pub fn explore(builder: bool, depth: usize, threads: usize) -> TableStats {
-    let model = TableModel { builder, depth, nvalues: if builder { BUILDER_VALUES as u8 } else { INTERNER_VALUES.len() as u8 }, transitions: AtomicU64::new(0), violations: Mutex::new(vec![]) };
+    let model = TableModel { builder, depth, nvalues: if builder { BUILDER_OPS as u8 } else { INTERNER_VALUES.len() as u8 }, transitions: AtomicU64::new(0), violations: Mutex::new(vec![]) };
     let checker = model.checker().threads(threads).spawn_bfs().join();
     let states = checker.unique_state_count() as u64;
     let max_depth = checker.max_depth();
@@ -288,7 +299,7 @@ pub fn explore(builder: bool, depth: usize, threads: usize) -> TableStats {
 
 /// the same exploration with the layered parallel explorer
 pub fn explore_layers(builder: bool, depth: usize) -> TableStats {
-    let n = if builder { BUILDER_VALUES as u8 } else { INTERNER_VALUES.len() as u8 };
+    let n = if builder { BUILDER_OPS as u8 } else { INTERNER_VALUES.len() as u8 };
     let alphabet: Vec<u8> = (0..n).collect();
     let model = TableModel { builder, depth, nvalues: n, transitions: AtomicU64::new(0), violations: Mutex::new(vec![]) };
     let st = crate::bfs::explore(&alphabet, depth, (0, 0), 5000, |h: &[u8]| {
@@ -312,6 +323,10 @@ pub fn replay_case(case: &Value) -> Option<(String, String)> {
 pub fn finish_of(hist: &[u8]) -> scale_info::PortableRegistry {
     let mut b = PortableRegistryBuilder::new();
     for &k in hist {
+        if k == OP_FINISH {
+            let _ = b.finish();
+            continue;
+        }
         // a stand-in model of the right length makes builder_value use the announced id
         let announced = b.next_type_id() as usize;
         let stand_in: Vec<PType> = vec![prim(lit::primitive(scale_info::TypeDefPrimitive::Bool), &["stand-in"], &[], vec![]); announced];
